@@ -260,3 +260,92 @@ def run_stream(ctx, prop):
     return R.run_model_stream(
         ctx, prop, "local rewrites: model of the rule (Model/Removal.v) vs the rule applied to the tree",
         CONFIGS, jobs, env_prelude=env_prelude)
+
+
+# ---------------------------------------------------------------------------------------------
+# behavioural stream: reference run (input in the modified environment) vs run of the REAL rule's
+# output, on observable template programs; differences are attributed to the recorded finding
+# classes by the decidable predicates of coq/Model/RemovalKnown.v
+
+BEHAVIOUR_PREAMBLE = """From Coq Require Import ZArith.
+From DL Require Import Lib.Bytes Lib.F64 Lua.Syntax Lua.Sem Lua.RunCheck Model.RemovalKnown.
+Open Scope N_scope.
+Open Scope string_scope.
+Definition bx := unhex.
+Definition nm := of_string.
+(* case = (reference program, (input program, output program));
+   verdict = compare_all (0 same, 1 no verdict, 2 different) + 10 * known_class input *)
+Definition stat_case (c : block * (block * block)) : N :=
+  compare_all 300%nat (fst c) (snd (snd c)) + 10 * known_class (fst (snd c)).
+"""
+
+KNOWN_KEYS = {1: "remove_call:directly-nested-removed-call-survives",
+              2: "remove_call:removed-call-in-multivalue-tail-yields-one-nil",
+              3: "remove_call:directly-nested-removed-call-survives"}
+
+NESTED_SHAPES = ["assert(assert(h()))", "local r = assert(assert(h())) return r", "assert((assert(h())))",
+                 "assert(x, assert(h()))", "debug.profilebegin(debug.profileend(f()))",
+                 "debug.profileend(x, debug.profilebegin(f()))", "return assert(assert(f()))"]
+TAIL_SHAPES = ["return select('#', debug.profileend())", "return select('#', assert())",
+               "local r = { debug.profilebegin('a') } return #r", "return debug.profilebegin(f())",
+               "return (function(...) return select('#', ...) end)(1, debug.profileend(g()))"]
+PLAIN_SHAPES = ["assert(f(), 'msg') return 1", "local r = assert(f()) return r", "local r, r2 = assert(f(), g()) return r, r2",
+                "local r, r2, r3 = assert(g()) return r, r2, r3", "debug.profilebegin('x') f() debug.profileend() return 2",
+                "local r = debug.profilebegin(f()) return r", "assert(x, f()) return x", "assert(t.x) return t.x",
+                "assert(f(), g(), t.x, h()) return 3", "local r = debug.profileend(f(), t.x, g()) return r",
+                "local assert = function(...) ext_s(...) return 5 end return assert(f())",
+                "local debug = { profilebegin = function(...) ext_s(...) return 6 end } return debug.profilebegin(f())",
+                "local function w(assert) return assert(f()) end return w(g)", "local r = (assert(f(), 1)) return r",
+                "local select = 1 local r, r2 = assert(f(), g()) return r, r2, select",
+                "if assert(f()) then return 1 end return 2", "local r = assert(f()) + assert(g(), 1) return r",
+                "return X", "return _G.X, _G['X']", "local X = 1 return X", "local function w(X) return X end return w(2), X",
+                "local r = { X, k = X } return r[1], r.k", "if X then return 1 else return 2 end", "return X == nil, X == false",
+                "local _G = { X = 'shadow' } return _G.X, X", "return type(X)"]
+
+
+def run_behaviour(ctx, prop):
+    rnd = random.Random(ctx.seed ^ 0xbe17)
+    thorough = ctx.tier != "quick"
+    scalar_cfgs = [INJECT0 + k for k, v in enumerate(VALUES) if v is None or isinstance(v, (bool, int, float, str))]
+    jobs = []
+    for body in NESTED_SHAPES + TAIL_SHAPES + PLAIN_SHAPES:
+        for ids in ((ASSERT,), (PROFILE,), (ASSERT, PROFILE), (rnd.choice(scalar_cfgs),), (PROFILE, ASSERT, rnd.choice(scalar_cfgs))):
+            jobs.append((ids, body))
+    # ordinary templates made observable
+    a_srcs = [s for s in gen_assert(rnd, False) if s.startswith("local function w(")]
+    p_srcs = [s for s in gen_profile(rnd, False) if s.startswith("local function w(")]
+    for s in rnd.sample(a_srcs, 400 if thorough else 60):
+        jobs.append(((ASSERT,), s + "\nreturn w(1, 2)"))
+    for s in rnd.sample(p_srcs, 400 if thorough else 60):
+        jobs.append(((PROFILE,), s + "\nreturn w(1, 2)"))
+    progs = []
+    for ids, body in jobs:
+        rules = "[" + ", ".join(CONFIGS[i][1] for i in ids) + "]"
+        progs.append((rules, R.SEARCH_PRELUDE + body))
+    outs = R.apply_batch(progs)
+    refs = R.apply_batch([("[]", env_prelude(r) + s) for r, s in progs])
+    cases, index, errors = [], {}, 0
+    for (rules, src), (t_in, t_out), (t_ref, _o) in zip(progs, outs, refs):
+        if t_in.startswith("ERR:") or t_out.startswith("ERR:") or t_ref.startswith("ERR:"):
+            errors += 1
+            continue
+        k = len(cases)
+        index[k] = (rules, src, t_in != t_out)
+        cases.append((k, "(%s, (%s, %s))" % (t_ref, t_in, t_out)))
+    stats = C.run_coq_stats(prop, BEHAVIOUR_PREAMBLE, cases, chunk=12, tag="behaviour")
+    same = [k for k, v in stats.items() if v % 10 == 0]
+    noverdict = [k for k, v in stats.items() if v % 10 == 1]
+    bad = sorted(k for k, v in stats.items() if v % 10 == 2)
+    ctx.stream("templates: run(input in the modified environment) vs run(the rule's output) in the Coq reference interpreter",
+               len(cases), len({index[k][1] + index[k][0] for k in same if index[k][2]}),
+               [{"rules": index[k][0], "source": index[k][1]} for k in same[:2]],
+               same=len(same), no_verdict=len(noverdict), differing=len(bad), stage_errors=errors,
+               differing_in_known_class=sum(1 for k in bad if stats[k] // 10 in KNOWN_KEYS))
+    for k in bad:
+        rules, src, _ = index[k]
+        ctx.violation("output program behaves differently from the reference (input run in the modified environment)",
+                      {"rules": rules, "source": src, "stream": "C17 templates, behavioural",
+                       "replay": "darklua process with these rules on this source; compare with the source run after `%s`"
+                                 % env_prelude(rules).strip()},
+                      key=KNOWN_KEYS.get(stats[k] // 10))
+    return len(bad)
